@@ -45,7 +45,8 @@ Default(p, v) ==         \* _default_tree
     IF IsErr(d) THEN ERRT
     ELSE IF e.t = "idx" THEN (IF e.i = 0 THEN List(<<d>>) ELSE ERRT)
     ELSE IF e.t = "key" THEN Dict(<<e.s>>, <<d>>)
-    ELSE ERRT            \* SELF / SKIP below a fresh key are outside the modelled universe
+    ELSE IF e.t = "self" THEN v     \* SELF below fresh keys is the fresh node itself, as everywhere else
+    ELSE ERRT            \* SKIP below a fresh key is outside the modelled universe
 
 RECURSIVE Set(_, _, _)
 Set(t, p, v) ==
